@@ -1,4 +1,4 @@
-CLAIM = False
+CLAIM = True
 
 STUBS = {'urcu_mb_synchronize_rcu': 'my_sync', 'start_defer_thread': 'my_noop', 'stop_defer_thread': 'my_noop'}
 
